@@ -141,6 +141,7 @@ def main(argv):
     tier = C.tier(argv[1] if len(argv) > 1 and argv[1] in ("quick", "thorough") else None)
     seed = C.seed()
     t0 = time.time()
+    os.makedirs(C.VERIF + "/replays", exist_ok=True)
     try:
         if "--replay" in argv and prop not in OTHER:
             from . import replay
@@ -218,4 +219,8 @@ def main(argv):
         C.finish(prop, res["violations"], kf_lines, infra=infra)
     except C.Infra as e:
         print("INFRA-ERROR property=%s %s" % (prop, e))
+        sys.exit(2)
+    except Exception:   # a bug in the machinery is not a verdict either
+        import traceback
+        print("INFRA-ERROR property=%s unexpected error in the checking machinery: %s" % (prop, traceback.format_exc()[-1500:]))
         sys.exit(2)
